@@ -34,7 +34,7 @@ RULE = (
 )
 TIMEOUT = 600
 REQUIRED_COUNTERS = ["dispatch_decisions", "dispatches", "cached_rows_compared", "phase_ends",
-                     "holds", "deferred_events"]
+                     "holds", "deferred_events", "quiescent_checks"]
 ASSUMPTIONS = [
     "decision-time state = committed snapshot with the dispatched step's own state put back to "
     "PENDING; the _check_safe flag of the step dispatched in that transaction is exempt",
@@ -52,6 +52,7 @@ DISPATCH_MECHS = {
     "build phase ended while an eligible step was left",
     "dispatch outside a dispatch transaction",
     "step deferred beyond the defer cap",
+    "eligible step while the job loop is parked (lost wake-up)",
     I.STALE_AFTER_MECH,
 }
 
@@ -122,7 +123,22 @@ def scenario_targets():
     return spec, [], {"njob": 2, "targets": ["out/sub/b.txt"]}
 
 
+def scenario_resources():
+    """Four steps that each need two of three available units: at most one may run at a time."""
+    steps = {}
+    items = [["static", ["src/a.txt"]]]
+    for k in range(4):
+        steps[f"R{k}"] = {"kind": "do", "salt": "", "inp": ["src/a.txt"], "out": [f"out/r{k}.txt"],
+                          "res": {"cpu": 2}}
+        items.append(["step", f"R{k}"])
+    steps["G"] = {"kind": "do", "salt": "", "inp": ["src/a.txt"], "out": ["out/g.txt"], "res": {"gpu": 1}}
+    items.append(["step", "G"])
+    spec = {"sources": {"src/a.txt": "a\n"}, "env": {}, "steps": steps, "plans": {".": items}}
+    return spec, [], {"njob": 3, "resources": "cpu:3"}
+
+
 SCENARIOS = {
+    "resources": scenario_resources,
     "hold_recycled_product": scenario_hold_recycled_product,
     "defer_forever": scenario_defer_forever,
     "missing_amend": scenario_missing_amend,
@@ -175,7 +191,7 @@ def run_case(case):
     rng = random.Random(case["seed"])
     counters = dict.fromkeys(["evaluations", "builds", "dispatch_decisions", "dispatches",
                               "cached_rows_compared", "phase_ends", "phase_ends_draining", "holds",
-                              "deferred_events", "commits_checked", "serial_builds"], 0)
+                              "deferred_events", "commits_checked", "serial_builds", "quiescent_checks"], 0)
     violations = []
     classes = set()
 
@@ -189,7 +205,7 @@ def run_case(case):
         counters["builds"] += 1
         counters["commits_checked"] += mon.nwrite_commits
         for key in ("dispatch_decisions", "dispatches", "cached_rows_compared", "phase_ends",
-                    "phase_ends_draining"):
+                    "phase_ends_draining", "quiescent_checks"):
             counters[key] += mon.counters.get(key, 0)
         counters["holds"] += sum(1 for e in build.events if e["type"] == "rpc" and e["name"] == "hold_dispatch")
         counters["deferred_events"] += len(build.tagged("DEFERRED"))
@@ -242,6 +258,10 @@ def run_case(case):
                 if mode == "serial":
                     counters["serial_builds"] += 1
                 mon = I.make_monitor(defer_cap=cfg.get("defer_cap", 100), dropped=dropped)
+                if mode == "serial":
+                    async def lost_wakeup(mon=mon, ctl=ctl):
+                        await I.check_lost_wakeup(mon, ctl.build)
+                    ctl.quiescent_hooks.append(lost_wakeup)
                 b = H.run_build(cfg, ctl=ctl, monitors=[mon], env=dict(cur.get("env", {})), timeout=90)
                 collect(mon, b, f"{case['id']}/{sub} build {k} ({mode})")
                 counters["evaluations"] += 1
